@@ -96,6 +96,9 @@ func (e *env) write(f func(idx ai.VectorStore[payloadT]) error, selfCommit bool)
 		return "ok", nil
 	}
 	if err := tx.Commit(e.ctx); err != nil {
+		if os.Getenv("VERIF_C33_DEBUG") != "" {
+			fmt.Fprintln(os.Stderr, "commit error:", err)
+		}
 		return "err:commit", nil
 	}
 	return "ok", nil
@@ -280,6 +283,9 @@ func (e *env) observe(nIDs int, qs *querySpec, skipQueryOver int) (*obs, error) 
 		n := 0
 		if it.Value != nil {
 			n = it.Value.VectorCount
+			if os.Getenv("VERIF_C33_DEBUG") != "" {
+				fmt.Fprintln(os.Stderr, "centroid", it.Key, it.Value.Vector, n)
+			}
 		}
 		o.d.cents = append(o.d.cents, [2]int{it.Key, n})
 		return nil
@@ -1145,7 +1151,11 @@ func run(o hx.RunOpts) error {
 		caseNo++
 		kind := kinds[i%len(kinds)]
 		steps := 8 + p.Intn(14)
-		if err := runCase(s, p.Fork(), caseNo, kind, nil, steps); err != nil {
+		cp := p.Fork()
+		if only := os.Getenv("VERIF_C33_ONLY"); only != "" && only != fmt.Sprint(caseNo) {
+			continue // debugging aid: run one generated case of the sequence
+		}
+		if err := runCase(s, cp, caseNo, kind, nil, steps); err != nil {
 			fmt.Fprintln(os.Stderr, strings.Join(s.CurrentOps(), "\n"))
 			s.Finish()
 			return fmt.Errorf("case %d: %w", caseNo, err)
